@@ -116,3 +116,30 @@ theorem listFold_upward (mfE cfE mfS cfS : Pattern → Bool) (pats : List Patter
     · exact Or.inr (hup p (by simp) h1)
 
 end Restic.Proofs.C28
+
+namespace Restic.Proofs.C28
+open Restic.Model.Filter
+
+/-- whenever `list` reports a match it also reports "children may match" (each single pattern
+    that matches also child-matches; a negated pattern clears both answers together) -/
+theorem listFold_matched_child (mf cf : Pattern → Bool) (pats : List Pattern)
+    (h : ∀ p ∈ pats, mf p = true → cf p = true) :
+    ∀ acc : Bool × Bool, (acc.1 = true → acc.2 = true) →
+      (listFold mf cf pats acc).1 = true → (listFold mf cf pats acc).2 = true := by
+  induction pats with
+  | nil => intro acc h; exact h
+  | cons p ps ih =>
+    intro acc hacc
+    simp only [listFold, List.foldl_cons]
+    apply ih (fun q hq => h q (by simp [hq]))
+    by_cases hn : p.negated = true
+    · simp only [listStep, hn, if_true, Bool.and_eq_true, Bool.not_eq_true']
+      rintro ⟨h1, h2⟩
+      exact ⟨hacc h1, h2⟩
+    · have hn' : p.negated = false := by simpa using hn
+      simp only [listStep, hn', Bool.false_eq_true, if_false, Bool.or_eq_true]
+      rintro (h1 | h1)
+      · exact Or.inl (hacc h1)
+      · exact Or.inr (h p (by simp) h1)
+
+end Restic.Proofs.C28
